@@ -11,7 +11,7 @@ from ..gen import make_cna
 
 TITLE = "A clear copy-number step is found and localised; flat profiles stay unsegmented"
 RULE = ("tables of 1..3 autosomes, each independently flat (100..600 bins) or a single step (100..400 bins per side) between 0 and -1 / +0.585 (and +1 for "
-        "haar), in either direction, Gaussian bin noise sd in [0.01, 0.1] (incl. exactly 0.1 and 0.01), weights in [0.5, 1], random bin sizes 200..5000 "
+        "haar), in either direction, Gaussian bin noise sd in [0.01, 0.1] (incl. exactly 0.1 and 0.01), weights in [0.5, 1], random bin sizes (per chromosome: 200..5000, 5..50 kb or 100..400 kb) "
         "and gaps < 10 kb; segmented by haar and hmm-germline with default options and 1 or 2 processes. Distinct by table fingerprint; every case is "
         "non-trivial (>= 100 noisy bins).")
 ASSUMPTIONS = [
@@ -123,7 +123,11 @@ def gen_profile(rng, method, i):
             sig = np.concatenate([np.full(nl, left), np.full(nr, right)])
             t = {"chrom": chrom, "kind": "step", "n": n, "at": nl, "left": left, "right": right, "sd": sd}
         log2 = sig + rng.normal(0, sd, n)
-        sizes = rng.integers(200, 5000, n)
+        # bin-size class per chromosome: capture-sized, wide, or antitarget/WGS-sized
+        # (>= 100 kb bins, still no 100 kb hole between bins, so no arm split)
+        lo, hi = ((200, 5000), (5000, 50000), (100000, 400000))[int(rng.choice([0, 0, 1, 2]))]
+        sizes = rng.integers(lo, hi, n)
+        t["bin_sizes"] = [lo, hi]
         gaps = np.where(rng.random(n) < 0.5, 0, rng.integers(0, 10000, n))
         pos = int(rng.integers(0, 1000000))
         starts, ends = [], []
